@@ -119,7 +119,7 @@ def run_watchdog(fn, timeout=30):
     return box.get('o'), th.is_alive()
 
 
-def make_world(rng, graph_enc, flavour, conc, nfiles, d):
+def make_world(rng, graph_enc, flavour, conc, nfiles, d, big=False):
     store = membackend.Store()
     w = harness.World(store=store, concurrent=conc, flavour=flavour)
     w.init('a', b'pw', harness.settings(encrypted=graph_enc, min_length=BLOCK, max_length=BLOCK))
@@ -128,13 +128,16 @@ def make_world(rng, graph_enc, flavour, conc, nfiles, d):
     for i in range(nfiles):
         blocks = [rng.choice(shared) if rng.random() < 0.3 else rng.randbytes(BLOCK) for _ in range(rng.randrange(1, 6))]
         files['f%d.bin' % i] = b''.join(blocks) + rng.randbytes(rng.choice([0, 0, 5]))
+    if big:
+        # many distinct chunks: the bounded queue (10 * concurrency) fills up while the workers are busy
+        files['big.bin'] = rng.randbytes(BLOCK * rng.randrange(30, 60))
     harness.write_tree(d / 'src', files)
     return w, store, files
 
 
-def snapshot_run(run, rng, seed, flavour, conc, fail, quick):
+def snapshot_run(run, rng, seed, flavour, conc, fail, quick, big=False):
     with harness.scratch() as d:
-        w, store, files = make_world(rng, bool(seed % 2), flavour, conc, rng.randrange(1, 5), d)
+        w, store, files = make_world(rng, bool(seed % 2), flavour, conc, rng.randrange(1, 5), d, big=big)
         # sequential reference: concurrency 1, no perturbation
         ref_world = harness.World(store=membackend.Store(dict(store.objs)), concurrent=1, flavour=flavour)
         ref_world.users = w.users
@@ -144,7 +147,7 @@ def snapshot_run(run, rng, seed, flavour, conc, fail, quick):
         be = instrument(w.backend(gate=LoggingGate(ctl, random.Random(seed), fail_at=fail)), ctl)
         install(ctl)
         try:
-            o, hung = run_watchdog(lambda: w.command('a', observed(lambda r: r.snapshot(paths=[d / 'src']), slots, conc), backend=be, concurrent=conc))
+            o, hung = run_watchdog(lambda: w.command('a', observed(lambda r: r.snapshot(paths=[d / 'src']), slots, conc), backend=be, concurrent=conc), 12)
         finally:
             uninstall()
         ok = bool(o and o.ok)
@@ -157,7 +160,7 @@ def snapshot_run(run, rng, seed, flavour, conc, fail, quick):
         evs = events_for_trace(ctl, 'snapshot')
         evs.append({'a': 'end', 'ok': ok, 'fault': fail is not None, 'same': bool(same), 'free': free if not hung else -1, 'hung': bool(hung),
                     'etype': o.etype if o else 'hung'})
-        run.case(('snapshot', seed, flavour, conc, fail), nontrivial=len(evs) > 8)
+        run.case(('snapshot', seed, flavour, conc, fail, big), nontrivial=len(evs) > 8)
         return {'kind': 'snapshot', 'n': conc, 'nfiles': 1, 'expected': [0], 'events': evs, 'seed': seed, 'flavour': flavour, 'fail': fail}
 
 
@@ -310,6 +313,8 @@ def main(run):
     for m in ('doneOnly', 'firstCompleted'):
         tlc.check_design('SnapshotPipe', 'mut.cfg', cfg_text=sp.replace('Mutant = "none"', 'Mutant = "%s"' % m), expect_violation='CommitComplete')
         caught.append(m)
+    tlc.check_design('SnapshotPipe', 'mut.cfg', cfg_text=sp.replace('Mutant = "none"', 'Mutant = "abortUnseenWhenFull"').replace('N = 2', 'N = 1').replace('QCap = 2', 'QCap = 1'), expect_violation=True)
+    caught.append('abortUnseenWhenFull')
     tlc.check_design('RestorePipe', 'mut.cfg', cfg_text=rp.replace('TestInsideLock = TRUE', 'TestInsideLock = FALSE'), expect_violation='NoSpuriousError')
     caught.append('testOutsideLock')
     run.add(states=states, transitions=trans, spec_mutants_caught=caught)
@@ -332,6 +337,10 @@ def main(run):
         fail = None if i % 4 else rng.randrange(1, 6)
         traces.append(snapshot_run(run, rng, run.seed * 1000 + i, flavour, conc, fail, quick))
         traces.append(restore_run(run, rng, run.seed * 1000 + 500 + i, flavour, conc, fail, quick))
+    # a backend failure while the producer's queue is full (transfer #1 is the config download of unlock: fail later ones)
+    for i in range(4 if quick else 40):
+        conc = [1, 2][i % 2]
+        traces.append(snapshot_run(run, rng, run.seed * 1000 + 800 + i, 'plain' if i % 4 < 2 else 'async', conc, 2 + rng.randrange(0, 3 * conc), quick, big=True))
 
     def on_reject(t, idx, clause):
         e = t['events'][idx - 1]
